@@ -436,6 +436,12 @@ def _process_worker(
             workers timeout.
         current_depth: Nested parallelism level, to avoid infinite spawning.
     """
+    # set the global _CURRENT_DEPTH mechanism to limit recursive call. This has
+    # to be done before running the initializer, which can itself create a
+    # nested executor.
+    global _CURRENT_DEPTH
+    _CURRENT_DEPTH = current_depth
+
     _verif_point("worker.start")
     if initializer is not None:
         try:
@@ -447,9 +453,6 @@ def _process_worker(
             return
 
     _verif_point("worker.init_done")
-    # set the global _CURRENT_DEPTH mechanism to limit recursive call
-    global _CURRENT_DEPTH
-    _CURRENT_DEPTH = current_depth
     _process_reference_size = None
     _last_memory_leak_check = None
     pid = os.getpid()
